@@ -50,3 +50,17 @@ Definition ddd_to_byte (s : bytes) : N :=
 
 Definition lower (b : N) : N := if (65 <=? b) && (b <=? 90) then b + 32 else b.
 Definition lower_bytes (s : bytes) : bytes := map lower s.
+
+(* length of the run of backslashes at the head of a (reversed) prefix *)
+Fixpoint bs_run (l : bytes) : nat :=
+  match l with b :: r => if b =? 92 then S (bs_run r) else O | [] => O end.
+
+
+(* defaults.go IsFqdn: trailing dot preceded by an even number of backslashes.
+   (strings.LastIndexFunc is rune based; the model is octet based and agrees
+   with it on every string whose last non-backslash rune is a single octet.) *)
+Definition is_fqdn (s : bytes) : bool :=
+  match rev s with
+  | 46 :: r => Nat.even (bs_run r)
+  | _ => false
+  end.
